@@ -171,8 +171,14 @@ def round_to_bits(fr, w):
     return bits | (s << (w - 1))
 
 
+FMT_MAX = {32: Fr(2) ** 128 - Fr(2) ** 104, 64: Fr(2) ** 1024 - Fr(2) ** 971}
+
+
 class PointEval(object):
+    overflows = None
+
     def __init__(self, argvals):
+        self.overflows = []
         """argvals: {argument name: Fraction} (the same value in every lane)"""
         self.args = argvals
         self.memo = {}
@@ -349,17 +355,26 @@ class PointEval(object):
                 raise Unevaluable('special value in arithmetic')
             a = vs[0].iv
             if n == 'fadd':
-                return FV(a + vs[1].iv)
-            if n == 'fsub':
-                return FV(a - vs[1].iv)
-            if n == 'fmul':
-                return FV(a * vs[1].iv)
-            if n == 'fdiv':
+                r = a + vs[1].iv
+            elif n == 'fsub':
+                r = a - vs[1].iv
+            elif n == 'fmul':
+                r = a * vs[1].iv
+            elif n == 'fdiv':
                 b = vs[1].iv
                 if b.lo <= 0 <= b.hi:
                     raise Unevaluable('division by an interval containing zero')
-                return FV(a / b)
-            return FV(a * vs[1].iv + vs[2].iv)
+                r = a / b
+            else:
+                r = a * vs[1].iv + vs[2].iv
+            # overflow monitor: the exact value of this intermediate certainly exceeds the largest finite number of its
+            # format, i.e. the machine operation yields +-inf here although the evaluation (roundings erased) goes on.
+            # Recorded only; the clauses that use it judge it (a finite, normal final result makes it a defect).
+            fmax = FMT_MAX.get(t.width)
+            if fmax is not None and r.mig() > fmax:
+                m_ = Fr(r.mig())
+                self.overflows.append((n, t.width, (m_.numerator.bit_length() - m_.denominator.bit_length()) * 0.30103, getattr(t, 'src', None)))
+            return FV(r)
         if n.startswith(('sqrt', 'x86.sqrt', 'call:llvm.sqrt', 'x86.sse.sqrt', 'x86.sse2.sqrt', 'x86.avx.sqrt')):
             v = self.fval(ops[0])
             if v.special or v.iv.lo < 0:
